@@ -315,6 +315,8 @@ def _run_newref(case):
         for ass, (sk, tk) in ((a1, ('C', 'P')), (a2, ('C', 'Q'))):
             for link, (fk, tk2) in ((ass.source_link, (tk, sk)), (ass.target_link, (sk, tk))):
                 for inst, partners in link.items():
+                    if not len(partners):
+                        continue          # an entry without partners links nothing (not observable)
                     if not any(inst is p for p in pools[fk]):
                         fails.append({'sig': 'dead-reachable', 'what': 'after %s the links of %s mention an instance of %s that is not in '
                                       'its pool (created by a refused new()? %s)' % (case['ops'][:step + 1], ass.rel_id, fk,
@@ -468,10 +470,12 @@ def run_impl(case):
                 fail('asymmetric', 'association %d navigates asymmetrically: source_link %s target_link %s' % (ai, src, tgt), step)
             for e in src + tgt:
                 if len(e) < 2:
-                    fail('empty-entry', 'association %d keeps an empty link entry %s' % (ai, e), step)
+                    # not observable at the property's observation points (navigation, referential reads, selections,
+                    # exceptions): counted, not demanded (docs/false-alarm-test-1.md, rewrite C02d)
+                    stats['empty_link_entries'] = stats.get('empty_link_entries', 0) + 1
                 if len(set(e[1:])) != len(e[1:]):
                     fail('duplicate-partner', 'association %d lists a partner twice %s' % (ai, e), step)
-                for i in e:
+                for i in (e if len(e) >= 2 else ()):      # an entry without partners links nothing
                     if i not in live:
                         if i in revived:
                             fail('use-after-delete', 'relate() accepted the deleted instance %d as argument; association %d '
